@@ -34,14 +34,8 @@ open SaVerif.Expr SaVerif.Pratt SaVerif.Expr.Gen
 
 /-- **parse_print_roundtrip** (full strength: every grammar, every tree of any size). -/
 theorem parse_print_roundtrip (g : Grammar) (t : G) (h : wb g t = true) :
-    parse g t.print = some t := by
-  have hl : parseLoop g 1 0 t [] = some (t, []) := parseLoop_stop g 0 0 t [] (by simp [follower, stops])
-  have h1 := parse_print_aux g t h 0 [] 1 (t, []) (wb_leftOK_zero g t h)
-    (by simpa [follower] using wb_rightOK_none g t h) hl
-  have h2 : parseExpr g (fuelFor t.print) 0 t.print = some (t, []) := by
-    have := parseExpr_mono g h1 (f' := fuelFor t.print) (by have := cost_le t; simp [fuelFor]; omega)
-    simpa using this
-  simp [parse, h2]
+    parse g t.print = some t :=
+  parse_print g t h
 
 /-- the same, read as: no information is lost in the text (the printed form determines the tree) -/
 theorem print_injective_on_wb (g : Grammar) (t₁ t₂ : G) (h₁ : wb g t₁ = true) (h₂ : wb g t₂ = true)
